@@ -34,11 +34,13 @@ def mir_send_tx(cfg):
 
 def obligations():
     return [
-        KModelOb('O18.1-pool', 'pending', 'pool', 'PendingTxs (real text): the pool never exceeds its limit, the oldest is evicted first, a re-push refreshes, '
+        KModelOb('O18.1-pool', 'pending', 'pool_q', 'PendingTxs (real text): the pool never exceeds its limit, the oldest is evicted first, a re-push refreshes, '
                  'get reports exactly the members, each pool entry is announced to a given peer at most once (and all not-yet-announced ones are); the reference follows the code in '
                  'treating a re-pushed transaction as a fresh entry - the once-per-peer clause under re-submission is O18.3',
-                 ex_pending, 'ONE arbitrary operation (push / announce / get) from an ARBITRARY pool state (inductive step); limit 1..3; 4 identities; 2 peers', cuts=CUTS,
-                 timeout=1500, mem_gb=10, min_covers=2, weight=4),
+                 ex_pending, 'ONE arbitrary operation (push / announce / get) from an ARBITRARY pool state (inductive step); limit 1..2; 4 identities; 2 peers', cuts=CUTS,
+                 timeout=1500, mem_gb=10, min_covers=2, weight=4, tiers=('quick',)),
+        KModelOb('O18.1-pool-t', 'pending', 'pool', 'as O18.1 with limit 1..3', ex_pending, 'limit 1..3; 4 identities; 2 peers', cuts=CUTS, timeout=3000, mem_gb=12, min_covers=2, weight=5,
+                 tiers=('thorough',)),
         KModelOb('O18.3-resubmission', 'pending', 'resubmission', 'PendingTxs (real text): a transaction that was already announced to a peer and is submitted AGAIN (send_transaction does '
                  'not de-duplicate) is not announced to that peer a second time', ex_pending, 'arbitrary pool (limit 1..3, 4 identities, 2 peers), re-push of a member, one announce', cuts=CUTS,
                  timeout=1200, mem_gb=10, min_covers=1, weight=3),
